@@ -30,7 +30,7 @@ REQUIRED = ["route.list", "route.one-by-one", "route.scenario", "route.xml", "ro
             "kind.adjacent", "kind.crossing", "kind.nested", "provenance.placed-angle-0", "provenance.placed",
             "provenance.translate_rotate", "provenance.deepcopy", "provenance.after-setters",
             "provenance.source-object-used-before",
-            "obstacle-absent-at-query-time", "contains_points.single-point", "route.deferred-index", "route.pending-index", "route.merged", "qshape.u-polygon-around-lanelet-end", "empty-network.constructor", "empty-network.fresh-scenario", "empty-network.emptied-by-removal", "qshape.group-near-member-then-member-on-lanelet", "obstacle-with-group-shape", "contract.find_lanelet_by_shape/ShapeGroup", "route.deferred-remove",
+            "obstacle-absent-at-query-time", "contains_points.single-point", "route.deferred-index", "route.pending-index", "route.merged", "qshape.u-polygon-around-lanelet-end", "get_obstacles.at-a-later-time-step", "empty-network.constructor", "empty-network.fresh-scenario", "empty-network.emptied-by-removal", "qshape.group-near-member-then-member-on-lanelet", "obstacle-with-group-shape", "contract.find_lanelet_by_shape/ShapeGroup", "route.deferred-remove",
             "route.translate-before-index"]
 ASSUMPTIONS = ["lanelet polygons are simple (strips with strictly increasing abscissa)",
                "circle queries within 0.2% of the radius of a boundary are not judged (shapely discs are 64-gons)"]
@@ -271,6 +271,41 @@ def run(ctx):
                 obstacles.append(late)
                 descs[599] = None
                 ctx.feature("obstacle-absent-at-query-time")
+            rects_ = [shp for _, shp, _ in shapes if isinstance(shp, Rectangle)]
+            if len(rects_) >= 2 and not pending:
+                # a moving obstacle asked at a LATER time step: at step 2 it stands where the second rectangle is, at step 1
+                # where the first one is, at step 0 far away from everything
+                from commonroad.prediction.prediction import TrajectoryPrediction
+                from commonroad.scenario.obstacle import DynamicObstacle
+                from commonroad.scenario.state import KSState
+                from commonroad.scenario.trajectory import Trajectory
+                r1, r2 = rects_[0], rects_[1]
+                body = Rectangle(r1.length, r1.width)
+                mover = DynamicObstacle(598, ObstacleType.CAR, body, InitialState(
+                    position=np.array([7e3, -7e3]), orientation=0.0, time_step=0), TrajectoryPrediction(Trajectory(1, [
+                        KSState(time_step=1, position=r1.center, orientation=r1.orientation, velocity=1.0, steering_angle=0.0),
+                        KSState(time_step=2, position=r2.center, orientation=r2.orientation, velocity=1.0, steering_angle=0.0)]),
+                        body))
+                ctx.feature("get_obstacles.at-a-later-time-step")
+                d1 = geom.describe(r1)
+                d2 = geom.describe(Rectangle(r1.length, r1.width, r2.center, r2.orientation))
+                try:
+                    for la2 in cur:
+                        ring2 = geom.lanelet_ring(la2)
+                        for t_, d_ in ((0, None), (1, d1), (2, d2), (3, None)):
+                            ctx.evaluation()
+                            got_ = 598 in {o.obstacle_id for o in la2.get_obstacles([mover], t_)}
+                            v_ = False if d_ is None else geom.desc_ring_relation(d_, ring2)
+                            if v_ is None:
+                                ctx.skipped()
+                            elif got_ != v_:
+                                ctx.violation("C06/Lanelet.get_obstacles/wrong-at-time-step/%s" % (
+                                    "outside-horizon-or-far-away" if d_ is None else "inside-horizon"),
+                                    "moving obstacle at time step %d on lanelet %d: got %s truth %s" % (
+                                        t_, la2.lanelet_id, got_, v_), {"route": label, "t": t_})
+                except Exception as e:  # noqa
+                    ctx.violation("C06/Lanelet.get_obstacles/raises-%s/at-a-later-time-step" % type(e).__name__, repr(e)[:200],
+                                  {"route": label})
             if obstacles:
                 try:
                     mapping = net.map_obstacles_to_lanelets(obstacles)
